@@ -42,7 +42,12 @@ func (c08hChecker) IsBlockedClient(netip.Addr, string) (bool, string) { return f
 
 var c08hIdents = []string{"192.168.1.5", "192.168.1.6", "192.168.0.0", "192.168.0.0/16", "192.168.1.0/24", "10.0.0.0/8",
 	"2001:db8::1234:5678", "2001:db8::/32", "::ffff:192.168.1.5", "fe80::1%eth0", "fe80::/64",
-	"aa:bb:cc:dd:ee:01", "aa:bb:cc:dd:ee:02", "cli1", "cli2"}
+	"aa:bb:cc:dd:ee:01", "aa:bb:cc:dd:ee:02", "cli1", "cli2",
+	"192.168.1.4/30", "10.0.0.0/24", "2001:db8::/64", "fe80::/10"}
+
+// nested CIDR chains, broadest first (round 4, H)
+var c08hNests = [][]string{{"192.168.0.0/16", "192.168.1.0/24", "192.168.1.4/30"}, {"10.0.0.0/8", "10.0.0.0/24"},
+	{"2001:db8::/32", "2001:db8::/64"}, {"fe80::/10", "fe80::/64"}, {"0.0.0.0/0", "192.168.0.0/16"}}
 
 var c08hAddrs = []string{"192.168.1.5", "192.168.1.6", "192.168.0.0", "192.168.77.1", "10.0.0.7", "8.8.8.8",
 	"2001:db8::1234:5678", "2001:db8::", "::ffff:192.168.1.5", "fe80::1%eth0", "fe80::1", "fe80::2%eth1"}
@@ -154,6 +159,34 @@ func c08hCase(t *testing.T, out *vfOut, clients [][]string, flags [][2]bool, lea
 			for _, x := range p.IPs {
 				if x == ip {
 					owner = p
+				}
+			}
+		}
+	}
+	if owner == nil {
+		// the most specific stored CIDR containing the address (among equally long
+		// ones the lower address: several spellings of one network)
+		how = "cidr"
+		var bp netip.Prefix
+		holders := 0
+		for _, p := range added {
+			for _, sn := range p.Subnets {
+				if sn.Contains(ip.WithZone("")) {
+					holders++
+					if owner == nil || sn.Bits() > bp.Bits() || (sn.Bits() == bp.Bits() && sn.Addr().Compare(bp.Addr()) < 0) {
+						owner, bp = p, sn
+					}
+				}
+			}
+		}
+		if holders > 1 {
+			classes = append(classes, "finder-nested-cidr")
+			for _, p := range added {
+				for _, sn := range p.Subnets {
+					if p != owner && sn.Contains(ip.WithZone("")) &&
+						(p.IgnoreQueryLog != owner.IgnoreQueryLog || p.IgnoreStatistics != owner.IgnoreStatistics) {
+						classes = append(classes, "finder-nested-cidr-flags-differ")
+					}
 				}
 			}
 		}
@@ -289,11 +322,48 @@ func TestVerifC08Home(t *testing.T) {
 	c08hCase(t, out, [][]string{{"cli1"}, {"192.168.1.5"}}, [][2]bool{{false, false}, {true, true}}, nil, "cli1", "192.168.1.5", "prelude")
 	c08hCase(t, out, [][]string{{"cli1"}, {"192.168.1.5"}}, [][2]bool{{true, true}, {false, false}}, nil, "cli1", "192.168.1.5", "prelude")
 
+	// nested CIDRs: the most specific one decides, in both orders of insertion,
+	// for every split of the flags between the broader and the narrower client
+	for _, f := range flagSets {
+		for _, g := range flagSets {
+			if f == g {
+				continue
+			}
+			for _, rev := range []bool{false, true} {
+				cl := [][]string{{"192.168.0.0/16", "2001:db8::/32"}, {"192.168.1.0/24", "2001:db8::/64"}}
+				fl := [][2]bool{f, g}
+				if rev {
+					cl[0], cl[1] = cl[1], cl[0]
+					fl[0], fl[1] = fl[1], fl[0]
+				}
+				for _, q := range [][2]string{{"", "192.168.1.5"}, {"cli3", "192.168.1.5"}, {"", "192.168.77.1"}, {"", "2001:db8::1234:5678"},
+					{"", "2001:db8:0:1:1:2:3:4"}} {
+					c08hCase(t, out, cl, fl, nil, q[0], q[1], "prelude-nested-cidr")
+				}
+			}
+		}
+	}
+
 	r := vfNewRand(out.Seed)
 	for i := out.Scale(150, 3000); i > 0; i-- {
 		n := 1 + r.Intn(3)
 		var cl [][]string
 		var fl [][2]bool
+		if r.Chance(1, 3) {
+			// a nested chain spread over the clients, in a random order
+			chain := c08hNests[r.Intn(len(c08hNests))]
+			for _, k := range []int{0, 1, 2} {
+				if k < len(chain) {
+					cl = append(cl, []string{chain[k]})
+					fl = append(fl, [2]bool{r.Bool(), r.Bool()})
+				}
+			}
+			for i := len(cl) - 1; i > 0; i-- {
+				j := r.Intn(i + 1)
+				cl[i], cl[j] = cl[j], cl[i]
+				fl[i], fl[j] = fl[j], fl[i]
+			}
+		}
 		for j := 0; j < n; j++ {
 			ids := []string{vfPick(r, c08hIdents)}
 			if r.Bool() {
